@@ -23,12 +23,18 @@ import Pfb.Hooks.Lemmas
 namespace Pfb.C14
 open Pfb.Hooks
 
+/-- no operation of the run comes from an embedded shell's throw-away importer, and none is a third-party step
+    (those are covered by the `_foreign` theorems below) -/
+def Plain (ops : List Op) : Prop := ∀ op ∈ ops, op.notPlain = false
+
+instance (ops : List Op) : Decidable (Plain ops) := by unfold Plain; infer_instance
+
 /-- no operation of the run comes from an embedded shell's throw-away importer -/
 def NoFresh (ops : List Op) : Prop := ∀ op ∈ ops, op.isFresh = false
 
 instance (ops : List Op) : Decidable (NoFresh ops) := by unfold NoFresh; infer_instance
 
-theorem reach_inv (cfg : Cfg) {s : St} (hs : Start s) {ops : List Op} (h : NoFresh ops) :
+theorem reach_inv (cfg : Cfg) {s : St} (hs : Start s) {ops : List Op} (h : Plain ops) :
     Inv cfg s.sh (run cfg s ops) :=
   inv_run hs.clean ops s (hs.inv cfg) h
 
@@ -39,7 +45,7 @@ theorem reach_inv (cfg : Cfg) {s : St} (hs : Start s) {ops : List Op} (h : NoFre
     both hook lists hold exactly the values they held in `s` — in particular after the `disable` that
     matches an `enable`.  Needs the D3 repair. -/
 theorem C14_reversible (cfg : Cfg) (hfix : cfg.resetDisabler = true) (s : St) (hs : Start s)
-    (ops : List Op) (hops : NoFresh ops) (hoff : (run cfg s ops).ai.state = .disabled) :
+    (ops : List Op) (hops : Plain ops) (hoff : (run cfg s ops).ai.state = .disabled) :
     (run cfg s ops).sh.jp = s.sh.jp ∧ (run cfg s ops).sh.ast = s.sh.ast ∧
     (run cfg s ops).sh.cleanup = s.sh.cleanup ∧ (run cfg s ops).ai.disablers = [] := by
   have hi := reach_inv cfg hs hops
@@ -54,7 +60,7 @@ theorem C14_reversible (cfg : Cfg) (hfix : cfg.resetDisabler = true) (s : St) (h
 /-- Both variants: joinpoints and AST transformers are restored; the cleanup list is restored up to
     reset transformers appended at its end. -/
 theorem C14_reversible_partial (cfg : Cfg) (s : St) (hs : Start s)
-    (ops : List Op) (hops : NoFresh ops) (hoff : (run cfg s ops).ai.state = .disabled) :
+    (ops : List Op) (hops : Plain ops) (hoff : (run cfg s ops).ai.state = .disabled) :
     (run cfg s ops).sh.jp = s.sh.jp ∧ (run cfg s ops).sh.ast = s.sh.ast ∧
     (∃ leak, (run cfg s ops).sh.cleanup = s.sh.cleanup ++ leak ∧ ∀ e ∈ leak, e.isPf = true) ∧
     (run cfg s ops).ai.disablers = [] := by
@@ -71,7 +77,7 @@ theorem C14_reversible_partial (cfg : Cfg) (s : St) (hs : Start s)
     theorems above apply between *any* two such states of a history, e.g. the state before an `enable`
     and the state after the matching `disable`). -/
 theorem C14_disabled_is_start (cfg : Cfg) (s : St) (hs : Start s)
-    (ops : List Op) (hops : NoFresh ops) (hoff : (run cfg s ops).ai.state = .disabled) :
+    (ops : List Op) (hops : Plain ops) (hoff : (run cfg s ops).ai.state = .disabled) :
     Start (run cfg s ops) := by
   obtain ⟨ej, ea, _, hd⟩ := C14_reversible_partial cfg s hs ops hops hoff
   refine ⟨hoff, hd, (reach_inv cfg hs hops).fresh, ⟨?_, ?_⟩⟩
@@ -79,7 +85,7 @@ theorem C14_disabled_is_start (cfg : Cfg) (s : St) (hs : Start s)
   · rw [ea]; exact hs.clean.ast
 
 example : Start St.init := start_init
-example : NoFresh [Op.enable false none, .invoke .astVisit .ok, .disable, .loadExt (some 4), .reloadExt none] := by decide
+example : Plain [Op.enable false none, .invoke .astVisit .ok, .disable, .loadExt (some 4), .reloadExt none] := by decide
 
 /-! ## Installed exactly once -/
 
@@ -95,7 +101,7 @@ theorem count_append_pf (l : List Entry) (i : Nat) : count Entry.isPf (l ++ [.pf
 
 /-- Both variants: in every reachable state each joinpoint carries at most one pyflyby wrapper and
     `ast_transformers` at most one pyflyby transformer. -/
-theorem C14_once_partial (cfg : Cfg) (s : St) (hs : Start s) (ops : List Op) (hops : NoFresh ops) :
+theorem C14_once_partial (cfg : Cfg) (s : St) (hs : Start s) (ops : List Op) (hops : Plain ops) :
     (∀ j, ((run cfg s ops).sh.jp j).depth ≤ 1) ∧ count Entry.isPf (run cfg s ops).sh.ast ≤ 1 := by
   have hi := reach_inv cfg hs hops
   rcases hi.phase with ⟨h1, _⟩ | ⟨_, _, shp⟩
@@ -107,12 +113,12 @@ theorem C14_once_partial (cfg : Cfg) (s : St) (hs : Start s) (ops : List Op) (ho
     · obtain ⟨i, e⟩ := shp.jp j
       rw [e, hi.leaks.jp]
       simp [Val.depth, depth_of_noAspect (hs.clean.jp j)]
-    · obtain ⟨i, e⟩ := shp.ast
-      rw [e, hi.leaks.ast, count_append_pf, count_isPf_clean hs.clean.ast]; exact Nat.le_refl _
+    · obtain ⟨i, hm, e⟩ := shp.ast
+      rw [count_erase_pf hm, ← e, hi.leaks.ast, count_isPf_clean hs.clean.ast]; exact Nat.le_refl _
 
 /-- **C14_once.**  With the D3 repair the same holds for `input_transformers_cleanup`. -/
 theorem C14_once (cfg : Cfg) (hfix : cfg.resetDisabler = true) (s : St) (hs : Start s)
-    (hcl : ∀ e ∈ s.sh.cleanup, e.isPf = false) (ops : List Op) (hops : NoFresh ops) :
+    (hcl : ∀ e ∈ s.sh.cleanup, e.isPf = false) (ops : List Op) (hops : Plain ops) :
     (∀ j, ((run cfg s ops).sh.jp j).depth ≤ 1) ∧ count Entry.isPf (run cfg s ops).sh.ast ≤ 1 ∧
     count Entry.isPf (run cfg s ops).sh.cleanup ≤ 1 := by
   obtain ⟨a, b⟩ := C14_once_partial cfg s hs ops hops
@@ -123,9 +129,9 @@ theorem C14_once (cfg : Cfg) (hfix : cfg.resetDisabler = true) (s : St) (hs : St
   rcases hi.phase with ⟨h1, _⟩ | ⟨_, _, shp⟩
   · rw [hi.disabled_undo h1] at e
     rw [e, count_isPf_clean hcl]; exact Nat.zero_le _
-  · obtain ⟨i, pre, e1, e2⟩ := shp.cleanup
+  · obtain ⟨i, hm, e2⟩ := shp.cleanup
     simp only [hfix, if_true] at e2
-    rw [e1, count_append_pf, ← e2, e, count_isPf_clean hcl]; exact Nat.le_refl _
+    rw [count_erase_pf hm, ← e2, e, count_isPf_clean hcl]; exact Nat.le_refl _
 
 /-! ## No accumulating residue -/
 
@@ -140,7 +146,7 @@ theorem sum_depth_le (f : JP → Val) (h : ∀ j, (f j).depth ≤ 1) : (JP.all.m
   omega
 
 /-- Both variants: wrappers, AST transformers and disablers stay bounded, whatever the history. -/
-theorem C14_no_residue_partial (cfg : Cfg) (s : St) (hs : Start s) (ops : List Op) (hops : NoFresh ops) :
+theorem C14_no_residue_partial (cfg : Cfg) (s : St) (hs : Start s) (ops : List Op) (hops : Plain ops) :
     sizeNC (run cfg s ops) ≤ s.sh.ast.length + 17 := by
   have hi := reach_inv cfg hs hops
   obtain ⟨hd, _⟩ := C14_once_partial cfg s hs ops hops
@@ -149,15 +155,15 @@ theorem C14_no_residue_partial (cfg : Cfg) (s : St) (hs : Start s) (ops : List O
   rcases hi.phase with ⟨h1, h2⟩ | ⟨_, _, shp⟩
   · obtain ⟨_, ea⟩ := inv_jp_disabled hi h1
     rw [h2, ea]; simp; omega
-  · obtain ⟨i, e⟩ := shp.ast
+  · obtain ⟨i, hm, e⟩ := shp.ast
     have hn := shp.ndis
-    rw [e, hi.leaks.ast, hn]
+    rw [length_erase_pf hm, ← e, hi.leaks.ast, hn]
     cases cfg.resetDisabler <;> simp <;> omega
 
 /-- **C14_no_residue.**  With the D3 repair the whole state is bounded independently of the history:
     at most 7 wrappers, one entry per hook list and 9 disablers on top of what the shell held. -/
 theorem C14_no_residue (cfg : Cfg) (hfix : cfg.resetDisabler = true) (s : St) (hs : Start s)
-    (ops : List Op) (hops : NoFresh ops) :
+    (ops : List Op) (hops : Plain ops) :
     size (run cfg s ops) ≤ size s + 18 := by
   have hi := reach_inv cfg hs hops
   have hp := C14_no_residue_partial cfg s hs ops hops
@@ -166,9 +172,9 @@ theorem C14_no_residue (cfg : Cfg) (hfix : cfg.resetDisabler = true) (s : St) (h
   have hc : (run cfg s ops).sh.cleanup.length ≤ s.sh.cleanup.length + 1 := by
     rcases hi.phase with ⟨h1, _⟩ | ⟨_, _, shp⟩
     · rw [hi.disabled_undo h1] at e; rw [e]; omega
-    · obtain ⟨i, pre, e1, e2⟩ := shp.cleanup
+    · obtain ⟨i, hm, e2⟩ := shp.cleanup
       simp only [hfix, if_true] at e2
-      rw [e1, ← e2, e]; simp
+      rw [length_erase_pf hm, ← e2, e]; exact Nat.le_refl _
   unfold size
   unfold sizeNC at hp
   omega
@@ -179,9 +185,9 @@ theorem C14_no_residue (cfg : Cfg) (hfix : cfg.resetDisabler = true) (s : St) (h
     and whether an earlier error blocks a silent re-enable evolve exactly as in the reference machine
     `refStep` over {off, on} — for every history. -/
 theorem C14_two_state (cfg : Cfg) (s : St) (hs : Start s) :
-    ∀ (ops : List Op), NoFresh ops → abs (run cfg s ops) = ops.foldl (refStep cfg) (abs s) := by
+    ∀ (ops : List Op), Plain ops → abs (run cfg s ops) = ops.foldl (refStep cfg) (abs s) := by
   intro ops hops
-  have key : ∀ (ops : List Op) (st : St), Inv cfg s.sh st → NoFresh ops →
+  have key : ∀ (ops : List Op) (st : St), Inv cfg s.sh st → Plain ops →
       abs (run cfg st ops) = ops.foldl (refStep cfg) (abs st) := by
     intro ops
     induction ops with
@@ -198,7 +204,7 @@ theorem C14_two_state (cfg : Cfg) (s : St) (hs : Start s) :
     iff the reference machine says "on": while on, pyflyby's AST transformer is installed and the
     importer is healthy; while off no pyflyby transformer is in `ast_transformers` and the cell is
     processed by IPython alone. -/
-theorem C14_cell_behaviour (cfg : Cfg) (s : St) (hs : Start s) (ops : List Op) (hops : NoFresh ops) :
+theorem C14_cell_behaviour (cfg : Cfg) (s : St) (hs : Start s) (ops : List Op) (hops : Plain ops) :
     cellAutoImports (run cfg s ops) = (abs (run cfg s ops)).enabled ∧
     ((abs (run cfg s ops)).enabled = false → ∀ h, h ≠ HookId.resetCleanup → installed (run cfg s ops).sh h = false) := by
   have hi := reach_inv cfg hs hops
@@ -212,6 +218,155 @@ theorem C14_cell_behaviour (cfg : Cfg) (s : St) (hs : Start s) (ops : List Op) (
     refine ⟨?_, ?_⟩
     · simp [cellAutoImports, inv_installed_enabled hi he .astVisit, abs, he, herr]
     · intro hf; simp [abs, he] at hf
+
+/-! ## Third-party steps between enable and disable
+
+`Op.foreign f`: another extension / the user rebinds `ip.ast_transformers` or the cleanup-transformer list
+to a new list object, appends or removes its own entries (`Pfb.Hooks.Foreign`).  The code's removers act on
+the list bound at the time `disable` runs, so they commute with all of these; the theorems below extend
+reversibility, exactly-once and no-residue to histories with arbitrary such steps anywhere (D3 repair
+assumed — the unchanged tree leaks for the reason proved above).  `foreignBase s.sh ops` is the shell the
+third-party steps alone would have produced.  Foreign *advice on top of a pyflyby wrapper* is not in the
+model: `Aspect.unadvise` then declines to unadvise ("seems modified") — see notes/C14.md. -/
+
+theorem reach_inv_foreign (cfg : Cfg) (hfix : cfg.resetDisabler = true) {s : St} (hs : Start s) {ops : List Op}
+    (h : NoFresh ops) :
+    Inv cfg (foreignBase s.sh ops) (run cfg s ops) ∧ Clean (foreignBase s.sh ops) :=
+  inv_run_foreign hfix ops s.sh s hs.clean (hs.inv cfg) h
+
+/-- **C14_reversible_foreign.**  Whenever the importer is off, joinpoints and both hook lists are exactly
+    what the third-party steps of the history would have made of the start shell without pyflyby: nothing of
+    pyflyby is left, every foreign entry survives, in order. -/
+theorem C14_reversible_foreign (cfg : Cfg) (hfix : cfg.resetDisabler = true) (s : St) (hs : Start s)
+    (ops : List Op) (hops : NoFresh ops) (hoff : (run cfg s ops).ai.state = .disabled) :
+    (run cfg s ops).sh.jp = (foreignBase s.sh ops).jp ∧ (run cfg s ops).sh.ast = (foreignBase s.sh ops).ast ∧
+    (run cfg s ops).sh.cleanup = (foreignBase s.sh ops).cleanup ∧ (run cfg s ops).ai.disablers = [] := by
+  obtain ⟨hi, _⟩ := reach_inv_foreign cfg hfix hs hops
+  have hl := hi.leaks
+  rw [hi.disabled_undo hoff] at hl
+  obtain ⟨leak, e, _, r⟩ := hl.cleanup
+  refine ⟨hl.jp, hl.ast, by rw [e, r hfix, List.append_nil], ?_⟩
+  rcases hi.phase with ⟨_, h2⟩ | ⟨h1, _⟩
+  · exact h2
+  · rw [hoff] at h1; cases h1
+
+theorem foreignBase_cleanup_noPf : ∀ (ops : List Op) (b : Shell), (∀ e ∈ b.cleanup, e.isPf = false) →
+    ∀ e ∈ (foreignBase b ops).cleanup, e.isPf = false := by
+  intro ops
+  induction ops with
+  | nil => intro b h; exact h
+  | cons op ops ih =>
+    intro b h
+    cases op with
+    | foreign f =>
+      simp only [foreignBase]
+      apply ih
+      cases f with
+      | addCleanup k =>
+        intro e he
+        simp only [applyForeign, List.mem_append, List.mem_singleton] at he
+        rcases he with he | he
+        · exact h e he
+        · subst he; rfl
+      | rmCleanup k => exact fun e he => h e (List.mem_of_mem_erase he)
+      | rebindAst => exact h
+      | rebindCleanup => exact h
+      | addAst k => exact h
+      | rmAst k => exact h
+      | other => exact h
+    | enable e f => exact ih b h
+    | disable => exact ih b h
+    | loadExt f => exact ih b h
+    | unloadExt => exact ih b h
+    | reloadExt f => exact ih b h
+    | invoke hk o => exact ih b h
+    | freshImporter => exact ih b h
+
+/-- **C14_no_residue_foreign.**  Whenever the importer is off — whatever was rebound, added or removed in
+    between — no pyflyby hook at all is reachable from IPython (no wrapper on a joinpoint, no pyflyby entry
+    in the lists bound now), so a cell is processed by IPython alone. -/
+theorem C14_no_residue_foreign (cfg : Cfg) (hfix : cfg.resetDisabler = true) (s : St) (hs : Start s)
+    (hcl : ∀ e ∈ s.sh.cleanup, e.isPf = false)
+    (ops : List Op) (hops : NoFresh ops) (hoff : (run cfg s ops).ai.state = .disabled) :
+    (∀ h, installed (run cfg s ops).sh h = false) ∧ cellAutoImports (run cfg s ops) = false := by
+  obtain ⟨hi, hc⟩ := reach_inv_foreign cfg hfix hs hops
+  obtain ⟨_, _, ecl, _⟩ := C14_reversible_foreign cfg hfix s hs ops hops hoff
+  have hall : ∀ h, installed (run cfg s ops).sh h = false := by
+    intro h
+    by_cases hr : h = .resetCleanup
+    · subst hr
+      simp only [installed, ecl]
+      rw [List.any_eq_false]
+      intro e he; simp [foreignBase_cleanup_noPf ops s.sh hcl e he]
+    · exact inv_installed_disabled hi hc hoff h hr
+  exact ⟨hall, by simp [cellAutoImports, hall]⟩
+
+theorem filter_nonPf_of_erase {l : List Entry} {i : Nat} (hm : Entry.pf i ∈ l)
+    (hc : ∀ e ∈ l.erase (.pf i), e.isPf = false) :
+    l.filter (fun e => !e.isPf) = l.erase (.pf i) := by
+  induction l with
+  | nil => cases hm
+  | cons a l ih =>
+    by_cases ha : a = .pf i
+    · subst ha
+      simp only [List.erase_cons_head] at hc ⊢
+      have hpf : (Entry.pf i).isPf = true := rfl
+      rw [List.filter_cons]
+      simp only [hpf, Bool.not_true, Bool.false_eq_true, if_false]
+      exact List.filter_eq_self.mpr (fun e he => by simp [hc e he])
+    · have hm' : Entry.pf i ∈ l := by
+        rcases List.mem_cons.mp hm with h | h
+        · exact absurd h.symm ha
+        · exact h
+      have hne : (a == Entry.pf i) = false := by simpa using ha
+      rw [List.erase_cons_tail (by simpa using ha)] at hc ⊢
+      have hca : a.isPf = false := hc a List.mem_cons_self
+      rw [List.filter_cons]
+      simp only [hca, Bool.not_false, if_true]
+      rw [ih hm' (fun e he => hc e (List.mem_cons_of_mem _ he))]
+
+/-- **C14_once_foreign / foreign entries survive.**  In *every* reachable state (importer on or off) each
+    joinpoint carries at most one wrapper, each list at most one pyflyby entry, and the non-pyflyby entries of
+    both lists are exactly, and in the order, what the third-party steps alone would have produced. -/
+theorem C14_once_foreign (cfg : Cfg) (hfix : cfg.resetDisabler = true) (s : St) (hs : Start s)
+    (hcl : ∀ e ∈ s.sh.cleanup, e.isPf = false) (ops : List Op) (hops : NoFresh ops) :
+    (∀ j, ((run cfg s ops).sh.jp j).depth ≤ 1) ∧
+    count Entry.isPf (run cfg s ops).sh.ast ≤ 1 ∧ count Entry.isPf (run cfg s ops).sh.cleanup ≤ 1 ∧
+    (run cfg s ops).sh.ast.filter (fun e => !e.isPf) = (foreignBase s.sh ops).ast ∧
+    (run cfg s ops).sh.cleanup.filter (fun e => !e.isPf) = (foreignBase s.sh ops).cleanup := by
+  obtain ⟨hi, hc⟩ := reach_inv_foreign cfg hfix hs hops
+  have hbcl := foreignBase_cleanup_noPf ops s.sh hcl
+  obtain ⟨leak, ecl, _, r⟩ := hi.leaks.cleanup
+  rw [r hfix, List.append_nil] at ecl
+  rcases hi.phase with ⟨h1, _⟩ | ⟨_, _, shp⟩
+  · obtain ⟨ej, ea⟩ := inv_jp_disabled hi h1
+    rw [hi.disabled_undo h1] at ecl
+    refine ⟨fun j => ?_, ?_, ?_, ?_, ?_⟩
+    · rw [ej, depth_of_noAspect (hc.jp j)]; exact Nat.zero_le _
+    · rw [ea, count_isPf_clean hc.ast]; exact Nat.zero_le _
+    · rw [ecl, count_isPf_clean hbcl]; exact Nat.zero_le _
+    · rw [ea]; exact List.filter_eq_self.mpr (fun e he => by simp [hc.ast e he])
+    · rw [ecl]; exact List.filter_eq_self.mpr (fun e he => by simp [hbcl e he])
+  · obtain ⟨i, hm, e⟩ := shp.ast
+    obtain ⟨k, hmc, ec⟩ := shp.cleanup
+    simp only [hfix, if_true] at ec
+    have hea : (run cfg s ops).sh.ast.erase (.pf i) = (foreignBase s.sh ops).ast := by rw [← e, hi.leaks.ast]
+    have hec : (run cfg s ops).sh.cleanup.erase (.pf k) = (foreignBase s.sh ops).cleanup := by rw [← ec, ecl]
+    refine ⟨fun j => ?_, ?_, ?_, ?_, ?_⟩
+    · obtain ⟨i', e'⟩ := shp.jp j
+      rw [e', hi.leaks.jp]
+      simp [Val.depth, depth_of_noAspect (hc.jp j)]
+    · rw [count_erase_pf hm, hea, count_isPf_clean hc.ast]; exact Nat.le_refl _
+    · rw [count_erase_pf hmc, hec, count_isPf_clean hbcl]; exact Nat.le_refl _
+    · rw [filter_nonPf_of_erase hm (by rw [hea]; exact hc.ast), hea]
+    · rw [filter_nonPf_of_erase hmc (by rw [hec]; exact hbcl), hec]
+
+/-- an instance: rebind, a foreign transformer appended while enabled, then disable -/
+example :
+    (run Cfg.repaired St.init [.enable false none, .foreign .rebindAst, .foreign (.addAst 7), .foreign .rebindCleanup,
+      .disable]).sh.ast = [.ext 7] := by decide
+example : NoFresh [Op.enable false none, .foreign .rebindAst, .foreign (.addAst 7), .disable, .foreign (.rmAst 7)] := by
+  decide
 
 /-! ## Witness: the unchanged tree (D3) and embedded shells -/
 
